@@ -171,12 +171,14 @@ PROPS = {
                 "and each class of inadmissible one; every 8th run instead wires the whole IP service as timeservice.go does (sync.Run with syncConfig's defaults, 1..4 reference clocks from newNTPReferenceClockIP - real IPClient, "
                 "interleaved mode, Ntimed filter - each against real runIPServer listeners of its own host, with loss, duplication and delay) and checks one correction per round, the reference cap and the timeout; "
                 "non-trivial = at least 3 rounds completed or an inadmissible configuration refused; distinct = distinct event-log hash",
-        "required_probes": ["exact-round", "partial-round", "both-groups", "cutoff-suppressed", "clamped-ref", "clamped-peer", "inadmissible-refused", "wired-round", "wired-nonzero-correction"],
+        "required_probes": ["exact-round", "partial-round", "both-groups", "cutoff-suppressed", "clamped-ref", "clamped-peer", "inadmissible-refused", "wired-round", "wired-nonzero-correction", "real-clock-driver"],
         "components": {"real": ["core/sync Run, measureOffsetToRefClks", "core/client ReferenceClockClient.MeasureClockOffsets, collectMeasurements",
-                                "core/measurements FaultTolerantMidpoint", "base/timemath"],
+                                "core/measurements FaultTolerantMidpoint", "base/timemath",
+                                "driver/clocks SystemClock (Drift, Sleep through an absolute timerfd, Epoch) in 1/4 of the model runs"],
                        "stub": dict(STUBS_COMMON, **{"reference clocks and peers": "scripted client.ReferenceClock", "discipline": "recording adjustments.Adjustment",
+                                                     "kernel time interface under the real driver": "simkern (clock_gettime, clock_adjtime, timerfd on a simulated node clock)",
                                                      "context deadline": "context.WithTimeout in sync.go substituted by a scheduler event (simsync.WithTimeout)"})},
-        "assumptions": ["the per-interval drift allowance is the simulated clock's Drift(interval); caps are impact x that value",
+        "assumptions": ["the per-interval drift allowance is configured drift x interval (in runs on the real driver; its Drift() truncates to whole nanoseconds, so exact values get an extra tolerance of one impact factor) or the simulated clock's Drift(interval); caps are impact x that value",
                         "float tolerance 2 ns + 1e-12 relative on bounds, 3 ns on exact values; exact value only checked when every source answered before the deadline and |values| <= 2^62"],
     },
     "C13": {
@@ -257,8 +259,10 @@ PROPS = {
         "rule": "one run = 5..64 updates (offset over the whole int64 range with boundary values around 1 ms, weight in {0,1,3,3.0000001,4,49,50,100,149,150,1000,1e6}) of the real Pll at "
                 "gaps from 0 to 600 s on a simulated clock that records Step/Adjust, bumps its epoch on Step and is stepped from outside with probability 1/15 per update; "
                 "non-trivial = at least one Step or Adjust was requested; distinct = distinct event-log hash",
-        "required_probes": ["step", "adjust", "adjust-nonzero", "initial-step-decision", "epoch-restart"],
-        "components": {"real": ["core/sync/adjustments Pll", "base/timemath"], "stub": dict(STUBS_COMMON)},
+        "required_probes": ["step", "adjust", "adjust-nonzero", "initial-step-decision", "epoch-restart", "real-clock-driver", "slew-ended-by-driver", "kernel-clock-stepped"],
+        "components": {"real": ["core/sync/adjustments Pll", "base/timemath",
+                                "driver/clocks SystemClock (Step, Adjust and the goroutine that ends a slew, Sleep, Epoch, Now) in 1/3 of the runs"],
+                       "stub": dict(STUBS_COMMON, **{"kernel time interface under the real driver": "simkern: clock_gettime, clock_adjtime (ADJ_SETOFFSET|ADJ_NANO, ADJ_FREQUENCY limited to 500 ppm), absolute timerfd on a simulated node clock with an oscillator error of up to 50 ppm"})},
         "assumptions": ["'start of the current clock epoch' is the first update observed in that epoch", "slew bound checked as |offset| <= 500e-6 x ceil(seconds since the previous update) + 1 ns"],
     },
     "C20": {
